@@ -8,7 +8,7 @@ TECHNIQUE = "static analysis over type-checked MIR: CFG reachability from the Re
 LEVEL_TEXT = """Static, all-paths decision of: (F1) the chain interpreter in the per-appender delivery function: from the switch on Filter::filter's Response the Accept arm reaches Append::append without another filter call, the Reject arm cannot reach Append::append and returns Ok, the Neutral arm returns to the iterator step, exhaustion reaches Append::append; (F2) filters are iterated forward over the stored vector and builders append in call order; (F3) in the node's delivery loop the only loop exit is iterator exhaustion and the Err arm records the error and continues; (F4) Log::log calls the error handler at exactly one site, once per item of the returned error vector; (F5) ThresholdFilter::filter returns Reject exactly on record_level > threshold and Neutral otherwise (never Accept). User-supplied filters/appenders are not decided."""
 LEVEL_NOTE = "Trusted: rustc MIR/callee resolution; Vec/slice iterators yield elements in order. Decides the interpreter's control-flow shape for every chain at once; behaviour of user components is outside."
 EXPLANATION = """Decided: F1 chain interpreter arms, F2 declaration order, F3 error isolation, F4 once per error, F5 threshold comparator. Undecided: behaviour of user-supplied Filter/Append implementations."""
-DECIDED = ["F1 Accept/Reject/Neutral arms", "F2 forward iteration, push order", "F3 loop exits only by exhaustion", "F4 one handler call per error", "F5 record_level > threshold => Reject else Neutral"]
+DECIDED = ["F1 Accept/Reject/Neutral arms", "F2 forward iteration, push order", "F3 loop exits only by exhaustion", "F4 one handler call per error", "F5 record_level > threshold => Reject else Neutral", "F6 a fresh filter list per appender in the lossy loader"]
 UNDECIDED = ["user-supplied filters and appenders"]
 TRUSTED = ["rustc nightly MIR + Instance::try_resolve", "std slice/Vec iteration order"]
 
@@ -23,7 +23,44 @@ def run(ctx):
         run_cfg(ctx, ctx.prog(cfg), cfg)
 
 
+def rule_error_isolation(ctx, p, cfg, rid="F3"):
+    with ctx.rule(rid, "error isolation", cfg) as r:
+        ro = anchors.routing(p)
+        nl = ro["node_log"]
+        ds = ro["deliver_site"]
+        nb = [c.block for c in nl.calls(NEXT)]
+        rr = nl.reach(ds.block, avoid=set(nb))
+        r.require(not any(b in rr for b in nl.return_blocks()), "loop-exits-only-by-exhaustion", fn=nl, site=ds.at,
+                  detail="after an appender call (Ok or Err) every path to return goes through the iterator step",
+                  fail_detail="a path from the appender call reaches return without the iterator step: %s" % [q.path_between(nl, ds.block, b, avoid=nb) for b in nl.return_blocks() if b in rr])
+        # Err arm records the error
+        pushes = [c for c in nl.calls() if (c.callee or "").rsplit("::", 1)[-1] == "push"]
+        okp = False
+        for c in pushes:
+            a = c.arg(1)
+            if any(x[0] == "as" and x[2] == "Err" and strip(x[1])[0] == "call" and strip(x[1])[1] == ds.callee for x in walk(a)):
+                okp = True
+            # `.filter_map(|..| deliver(..).err())` collected into the list: the Some payload of Result::err(deliver(..))
+            if any(x[0] == "as" and x[2] == "Some" and strip(x[1])[0] == "call" and strip(x[1])[1] == "core::result::Result::<T, E>::err"
+                   and strip(strip(x[1])[2][0])[0] == "call" and strip(strip(x[1])[2][0])[1] == ds.callee for x in walk(a)):
+                okp = True
+        r.require(okp, "err-recorded", fn=nl, detail="the Err payload of the appender call is pushed to the error list")
+        # the errors are returned as Err(list) when non-empty
+        rets = q.ret_assignments(nl)
+        r.require(any(q.classify_ret(e) == "err" for b, e in rets) and any(q.classify_ret(e) == "ok" for b, e in rets), "returns-collected-errors", fn=nl,
+                  detail="returns Err(errors) / Ok(())")
+        # one delivery per attachment: the single appender call is in exactly one loop, argument indexes table with the loop item
+        a0 = ds.arg(0)
+        idx = [x for x in walk(a0) if x[0] == "index"]
+        okidx = bool(idx) and deep_strip(idx[0][1]) == ("param", 3) and any(x[0] == "call" and x[1] == NEXT for x in walk(idx[0][2]))
+        r.require(okidx, "delivers-to-indexed-appender", fn=nl, site=ds.at, detail="appenders[idx] with idx from the node's list iterator: %s" % show(a0, 6))
+
+
+
 def run_cfg(ctx, p, cfg):
+    if "config_parsing" in p.meta.get("features", []):
+        from rules import c14
+        c14.rule_filters_per_appender(ctx, p, cfg, "F6")   # one appender's (failed) declaration cannot put filters in front of another
     with ctx.rule("F1", "chain interpreter", cfg) as r:
         ro = anchors.routing(p)
         d = ro["deliver"]
@@ -131,36 +168,7 @@ def run_cfg(ctx, p, cfg):
             okk = bool(fe) and not any(x[0] == "call" and x[1].rsplit("::", 1)[-1] in ("rev", "reverse", "sort", "filter", "skip", "take") for x in walk(fe[0]))
             r.require(okk, "filters-moved-unchanged:%s" % f.path, fn=f, detail="filters field built from %s" % (show(fe[0], 5) if fe else None))
 
-    with ctx.rule("F3", "error isolation", cfg) as r:
-        ro = anchors.routing(p)
-        nl = ro["node_log"]
-        ds = ro["deliver_site"]
-        nb = [c.block for c in nl.calls(NEXT)]
-        rr = nl.reach(ds.block, avoid=set(nb))
-        r.require(not any(b in rr for b in nl.return_blocks()), "loop-exits-only-by-exhaustion", fn=nl, site=ds.at,
-                  detail="after an appender call (Ok or Err) every path to return goes through the iterator step",
-                  fail_detail="a path from the appender call reaches return without the iterator step: %s" % [q.path_between(nl, ds.block, b, avoid=nb) for b in nl.return_blocks() if b in rr])
-        # Err arm records the error
-        pushes = [c for c in nl.calls() if (c.callee or "").rsplit("::", 1)[-1] == "push"]
-        okp = False
-        for c in pushes:
-            a = c.arg(1)
-            if any(x[0] == "as" and x[2] == "Err" and strip(x[1])[0] == "call" and strip(x[1])[1] == ds.callee for x in walk(a)):
-                okp = True
-            # `.filter_map(|..| deliver(..).err())` collected into the list: the Some payload of Result::err(deliver(..))
-            if any(x[0] == "as" and x[2] == "Some" and strip(x[1])[0] == "call" and strip(x[1])[1] == "core::result::Result::<T, E>::err"
-                   and strip(strip(x[1])[2][0])[0] == "call" and strip(strip(x[1])[2][0])[1] == ds.callee for x in walk(a)):
-                okp = True
-        r.require(okp, "err-recorded", fn=nl, detail="the Err payload of the appender call is pushed to the error list")
-        # the errors are returned as Err(list) when non-empty
-        rets = q.ret_assignments(nl)
-        r.require(any(q.classify_ret(e) == "err" for b, e in rets) and any(q.classify_ret(e) == "ok" for b, e in rets), "returns-collected-errors", fn=nl,
-                  detail="returns Err(errors) / Ok(())")
-        # one delivery per attachment: the single appender call is in exactly one loop, argument indexes table with the loop item
-        a0 = ds.arg(0)
-        idx = [x for x in walk(a0) if x[0] == "index"]
-        okidx = bool(idx) and deep_strip(idx[0][1]) == ("param", 3) and any(x[0] == "call" and x[1] == NEXT for x in walk(idx[0][2]))
-        r.require(okidx, "delivers-to-indexed-appender", fn=nl, site=ds.at, detail="appenders[idx] with idx from the node's list iterator: %s" % show(a0, 6))
+    rule_error_isolation(ctx, p, cfg, "F3")
 
     with ctx.rule("F4", "once per error", cfg) as r:
         ro = anchors.routing(p)
